@@ -224,7 +224,8 @@ pub fn enabled<P: Proto>(w: &ClientWorld<P>, cfg: &Cfg) -> Vec<(CAct, u8)> {
         "C18" => {
             // (MQTT 5: a server keep-alive in the CONNACK replaces the configured value)
             let ka = cfg.server_ka.map(|k| k as u64).unwrap_or(cfg.keep_alive_s);
-            let q = (ka.max(1) * 1000 / 5) as u32;
+            let div = if cfg.time_div == 0 { 5 } else { cfg.time_div as u64 };
+            let q = (ka.max(1) * 1000 / div) as u32;
             if cfg.variant == 0 {
                 if connected && healthy {
                     v.push((CAct::T(q), 0));
@@ -475,6 +476,15 @@ fn plans(prop: &str, tier: Tier) -> Vec<Plan> {
                     let mut c = Cfg::base("C18", v5, 10);
                     c.keep_alive_s = ka;
                     v.push(Plan { cfg: c.clone(), depth_by_devs: if q { vec![13, 12] } else { vec![17, 16, 14] } });
+                    if !q && ka == 5 {
+                        // finer phase offsets between broker replies, traffic and the timer
+                        let mut f = c.clone();
+                        f.time_div = 10;
+                        v.push(Plan { cfg: f.clone(), depth_by_devs: vec![32, 30] });
+                        // (steps stay multiples of the 100 ms slice in which the clock moves)
+                        f.time_div = 2;
+                        v.push(Plan { cfg: f, depth_by_devs: vec![8, 8, 8, 7] });
+                    }
                 }
                 if v5 {
                     // the broker overrides the keep-alive: shorter, longer, switched off
